@@ -3,6 +3,7 @@ package props
 import (
 	"crypto/x509"
 	"fmt"
+	"strings"
 	"time"
 
 	"github.com/beevik/etree"
@@ -15,7 +16,7 @@ import (
 
 func init() {
 	register(&Prop{ID: "C02", Run: runC02, MinNontrivial: 500,
-		Rule:        "cases = (kind: signed SSO Response, signed assertion under an unsigned Response, bad Response signature over well-signed assertions, LogoutRequest, LogoutResponse) x (signer: store member i of n, untrusted key, trusted certificate with foreign key, same key under another certificate, KeyInfo absent) x (store: 0-3 certificates, RSA/ECDSA, signer's certificate present or not) x (SP clock at NotBefore-1s, NotBefore+1s, middle, NotAfter-1s, NotAfter+1s of the signing certificate) x (tamper: none, signed text altered, signed attribute altered); oracle: signature honoured iff certificate in store and key matches and window contains the injected now and untampered and (KeyInfo present or store size 1); a present but bad signature is an error, never 'accepted unflagged'; evidence counts clock reads whose stack contains verifyCertificate; non-trivial = reached signature processing; distinct by parameter tuple; also stores holding a renewed certificate over the same key, and a store-rollover class (outgoing + incoming certificate in a stock memory store, one SP, clock moving across the hand-over; the store must stay as configured); tamper sig-nested (own signature moved into an Extensions child); same-subject roll-over stores; store members with odd key-usage profiles; KeyInfo-less messages and doubled entries in the store-rollover class; tamper sigmethod-swapped (registered and unknown SignatureMethod / DigestMethod identifiers); stores listing Ed25519 certificates beside the one usable member",
+		Rule:        "cases = (kind: signed SSO Response, signed assertion under an unsigned Response, bad Response signature over well-signed assertions, LogoutRequest, LogoutResponse) x (signer: store member i of n, untrusted key, trusted certificate with foreign key, same key under another certificate, KeyInfo absent) x (store: 0-3 certificates, RSA/ECDSA, signer's certificate present or not) x (SP clock at NotBefore-1s, NotBefore+1s, middle, NotAfter-1s, NotAfter+1s of the signing certificate) x (tamper: none, signed text altered, signed attribute altered); oracle: signature honoured iff certificate in store and key matches and window contains the injected now and untampered and (KeyInfo present or store size 1); a present but bad signature is an error, never 'accepted unflagged'; evidence counts clock reads whose stack contains verifyCertificate; non-trivial = reached signature processing; distinct by parameter tuple; also stores holding a renewed certificate over the same key, and a store-rollover class (outgoing + incoming certificate in a stock memory store, one SP, clock moving across the hand-over; the store must stay as configured); tamper sig-nested (own signature moved into an Extensions child); same-subject roll-over stores; store members with odd key-usage profiles; KeyInfo-less messages and doubled entries in the store-rollover class; tamper sigmethod-swapped (registered and unknown SignatureMethod / DigestMethod identifiers); stores listing Ed25519 certificates beside the one usable member; tamper repeated-id (a second ID attribute in front of the signed element's own)",
 		Assumptions: []string{"exact NotBefore/NotAfter instants are not probed (X.509 validity is inclusive; the property says inside)", "wall time is decades away from every certificate window"}})
 }
 
@@ -31,7 +32,7 @@ func runC02(c *mon.Ctx) {
 		t      time.Time
 		inside bool
 	}{{"nb-1s", nb.Add(-time.Second), false}, {"nb+1s", nb.Add(time.Second), true}, {"middle", nb.Add(time.Hour), true}, {"na-1s", na.Add(-time.Second), true}, {"na+1s", na.Add(time.Second), false}}
-	tampers := []string{"none", "none", "text", "attr", "sig-nested", "sigmethod-swapped"}
+	tampers := []string{"none", "none", "text", "attr", "sig-nested", "sigmethod-swapped", "repeated-id"}
 	n := c.N(3600, 60000)
 	for k := 0; k < n; k++ {
 		cs := c.Begin("cert-trust", k)
@@ -305,6 +306,15 @@ func runC02(c *mon.Ctx) {
 				target.CreateAttr("Consent", "urn:oasis:names:tc:SAML:2.0:consent:obtained")
 			}
 			doc = sim.DocString(d)
+			if tamper == "repeated-id" {
+				// a second ID attribute written in front of the signed element's own (the "attr" tamper above made the
+				// document differ already; not well-formed, yet lenient parsers read on): the element's signature is
+				// still its signature, and it no longer covers what is presented
+				id := target.SelectAttrValue("ID", "")
+				if i := strings.Index(doc, ` ID="`+id+`"`); i >= 0 && id != "" {
+					doc = doc[:i] + ` ID="_evil"` + doc[i:]
+				}
+			}
 		}
 		cs.Desc("kind=%s signer=%s clock=%s tamper=%s store=%d inStore=%v spec=%s dsOnRoot=%v nsCharRef=%v usage=%d", kind, sg, clk.name, tamper, storeSize, inStore, spec, spec.NoNSDecl, spec.NSCharRef, profile)
 		cs.Input([]byte(doc))
